@@ -61,8 +61,9 @@ CLAIMS["C20"] = dict(
     technique="bounded symbolic execution of sbbf.rs (bloom filter blocks) and the zone-map pruning decision with Kani+CBMC over symbolic filter states, hashes and statistics",
     text=("Decides no-false-negatives for the split-block bloom filter as one inductive step from an arbitrary filter state (1..=3 blocks, all u64 "
           "hashes): an inserted hash is found, inserts never clear a hit, block indices are in range for every block count, and the byte form "
-          "round-trips. N-gram tokenisation and hashing of values are outside; the claim is restricted to these kernels."),
-    note="Hashing (xxhash) and filter sizing are library/float code and not encoded.",
+          "round-trips; and for the zone map that a zone holding a row that satisfies IsNull/Equals/IsIn/Range is never pruned (see C29). N-gram "
+          "tokenisation/posting intersection and hashing of values are outside; the claim is restricted to these kernels."),
+    note="Hashing (xxhash), filter sizing (float) and the n-gram index are not encoded.",
 )
 
 CLAIMS["C28"] = dict(
@@ -138,6 +139,35 @@ CLAIMS["C26"] = dict(
     note="Claim restricted to the named kernels.",
 )
 
+CLAIMS["C29"] = dict(
+    engine="kani-transplant",
+    technique="bounded symbolic execution of ZoneMapIndex::evaluate_zone_against_query with Kani+CBMC over symbolic zone statistics, row values and queries (Int32, UInt64, Float32, Float64; all bit patterns)",
+    text=("Decides that the zone-map pruning decision is conservative: for an arbitrary row value v of a zone (NULL, NaN, +-0, +-inf included), arbitrary "
+          "statistics satisfying what the builder computes for a zone containing v (null/nan counts, min <= v <= max in ScalarValue order) and an arbitrary "
+          "IsNull / Equals / IsIn(<=2) / Range(any bound kinds) query: if v satisfies the query, the zone is kept. The legacy page-statistics pruning "
+          "(pushdown_scan.rs, DataFusion PruningPredicate) and statistics collection (Arrow kernels) are NOT claimed."),
+    note="ScalarValue and SargableQuery are models (ordering as in datafusion-common 50). NaNs are canonical quiet NaNs (payload/sign variants outside, see DESIGN.md).",
+)
+
+CLAIMS["C19"] = dict(
+    engine="kani-transplant",
+    technique="bounded symbolic execution of the index-result combination code (ScalarIndexExpr::evaluate tables, RowIdMask !,&,|) with Kani+CBMC",
+    text=("Decides only the layer of the property in which leaf answers are combined: NOT / AND / OR over exact, at-most and at-least results keep their guarantees "
+          "and the RowIdMask complement/intersection/union they use is exact set algebra (this is where `NOT (a AND b)` over two indexed columns went wrong "
+          "before the RowIdMask fixes). The leaf searches (B-tree, bitmap, label-list), NULL handling inside them, remap and update are Arrow/IO code and "
+          "NOT claimed; the check is therefore a necessary condition for C19, shared with C21."),
+    note="Same harnesses as C21 (units idxres, mask_l2).",
+)
+
+CLAIMS["C32"] = dict(
+    engine="kani-transplant",
+    technique="bounded symbolic execution of the hand-written binary framings (IndexExprResult discriminant/from_parts, Sbbf bytes) with Kani+CBMC",
+    text=("Decides round trips of the metadata lance frames by hand rather than through prost: IndexExprResult::discriminant/from_parts (and rejection of "
+          "unknown discriminants) and the split-block bloom filter's byte form (thorough tier). Protobuf conversions of manifests, transactions, index "
+          "metadata, row-id sequences and tag/branch JSON go through prost/serde over heap types and are NOT claimed."),
+    note="Restricted to the named framings.",
+)
+
 _IO = "truth lives in async object-store/tokio orchestration (crash points, interleavings, listings); Kani/CBMC has no model of tokio or object_store and no pure kernel implies the statement"
 NOT_APPLICABLE.update({
     "C01": "commit atomicity over crash points: " + _IO,
@@ -166,5 +196,5 @@ NOT_APPLICABLE.update({
     "C42": "relocatability is a statement about every path written by every writer being relative; decided by I/O",
 })
 _PLANNED = "planned in DESIGN.md §5 but its check is not built yet, so it is not claimed"
-for _p in ["C09", "C17", "C19", "C27", "C29", "C32", "C36", "C43"]:
+for _p in ["C09", "C17", "C27", "C36", "C43"]:
     NOT_APPLICABLE.setdefault(_p, _PLANNED)
